@@ -105,6 +105,12 @@ inductive Op
   /-- `mol.add_implicit_hydrogens(…)`: the hydrogens that the routine decided to add (property C16),
       as (heavy atom, coordinate payload) in the order they were added -/
   | addHydrogens (hs : List (AtomId × Nat))
+  /-- `mol.append_bond(b)` with a bond OBJECT that exists already (number `b`, ends `x`, `y`) — typically a stale handle:
+      a bond deleted earlier in the history, whose ends may themselves have been deleted.  Refused if `b` is in the molecule. -/
+  | appendBondObj (b : Nat) (x y : AtomSpec)
+  /-- `mol.append_bonds(b1, …)` / `mol.extend_bonds([b1, …])` with existing bond objects: refused as a whole if one of
+      them is in the molecule or occurs twice in the call -/
+  | appendBondObjs (l : List (Nat × AtomSpec × AtomSpec))
   /-- `mol.substructure(refs)` / `Substructure(mol, refs)`: a view that holds the atom objects the references
       address now (the molecule is not changed) -/
   | mkView (refs : List Ref)
@@ -302,6 +308,13 @@ def step (m : Mol) : Op → Mol × Out
           let acc1 := pushAtom acc0 { id := .own acc.next, elem := 1, label := none } h.2 none
           { acc1 with bonds := acc1.bonds ++ [{ id := acc.next + 1, a1 := h.1, a2 := .own acc.next, parentOk := true }] }
         else acc0) m, .ok)
+  | .appendBondObj b x y =>
+    if b ∈ m.bonds.map (·.id) then (m, .err)
+    else (pushBond { m with next := max m.next (b + 1) } b x y, .ok)
+  | .appendBondObjs l =>
+    if (∀ p ∈ l, p.1 ∉ m.bonds.map (·.id)) ∧ (l.map (·.1)).Nodup then
+      (l.foldl (fun acc p => pushBond { acc with next := max acc.next (p.1 + 1) } p.1 p.2.1 p.2.2) m, .ok)
+    else (m, .err)
   | .mkView refs => (m, if (resolveView m refs).isSome then .ok else .err)
   | .viewRead atoms => (m, if (viewRows m atoms).isSome then .ok else .err)
   | .viewWrite atoms payloads =>
